@@ -667,7 +667,9 @@ struct Mutator {
                                   "18446744073709551616", "99999999999999999999999999", "-2147483648", "-2147483649",
                                   "-9223372036854775808", "-18446744073709551615", "1.5", "1e3", "0.0"};
         int k = (int)rng.below(sizeof(B) / sizeof(B[0]) + 9);
-        long rel[] = {nv - 1, nv, nv + 1, 2 * ne - 1, 2 * ne, 2 * ne + 1, 2 * nf - 1, 2 * nf, 2 * nf + 1};
+        // counts come from (possibly already mutated) text: wrap instead of overflowing
+        auto w = [](long x, long mul, long add) { return (long)((unsigned long long)x * (unsigned long long)mul + (unsigned long long)add); };
+        long rel[] = {w(nv, 1, -1), nv, w(nv, 1, 1), w(ne, 2, -1), w(ne, 2, 0), w(ne, 2, 1), w(nf, 2, -1), w(nf, 2, 0), w(nf, 2, 1)};
         if (k < 9) return std::to_string(rel[k]);
         return B[k - 9];
     }
